@@ -88,29 +88,37 @@ def r18_1(ctx: Ctx) -> None:
     ctx.record("R18.1", ctx.key(ct, "admit <=> up and load + size <= bandwidth"), ct.loc(), not bad,
                "6-case table holds" if not bad else "admission test differs", bad)
     ca = ix.method("AirSpace.can_transmit_frame")
-    rets = [r for r in ast.walk(ca.node) if isinstance(r, ast.Return) and r.value is not None]
-    if len(rets) != 1 or not isinstance(rets[0].value, ast.Compare):
-        raise AnalysisError("R18.1: AirSpace.can_transmit_frame is not a single comparison")
-    cmp_ = rets[0].value
-    left, right = cmp_.left, cmp_.comparators[0]
     load_t = cap_t = size_t = None
-    for side in (left, right):
-        for sub in ast.walk(side):
-            if isinstance(sub, ast.Subscript) and unparse(sub.value) == "self.bandwidth_load":
-                load_t = unparse(sub)
-            if isinstance(sub, ast.Call) and call_name(sub) == "get_frequency_max_capacity_mbps":
-                cap_t = unparse(sub)
-            if isinstance(sub, ast.Attribute) and sub.attr == "size_Mbits":
-                size_t = unparse(sub)
+    for sub in ast.walk(ca.node):
+        if isinstance(sub, ast.Subscript) and unparse(sub.value) == "self.bandwidth_load" and isinstance(sub.ctx, ast.Load):
+            load_t = unparse(sub)
+        if isinstance(sub, ast.Call) and call_name(sub) == "get_frequency_max_capacity_mbps":
+            cap_t = unparse(sub)
+        if isinstance(sub, ast.Attribute) and sub.attr == "size_Mbits":
+            size_t = unparse(sub)
     if not (load_t and cap_t and size_t):
         raise AnalysisError("R18.1: cannot identify load/size/capacity operands in AirSpace.can_transmit_frame")
+    key_t = load_t[len("self.bandwidth_load["):-1]
+    gca = CFG(ca.node)
     bad = []
-    for load, size, cap in ((1, 1, 3), (1, 2, 3), (2, 2, 3)):
-        v = Evaluator({load_t: load, size_t: size, cap_t: cap}).ev(cmp_)
-        if v is UNKNOWN or bool(v) != (load + size <= cap):
-            bad.append(f"load+size vs capacity {load + size} vs {cap}: {v}")
+    n_rows = 0
+    # a frequency with no entry yet carries load 0 (first frame after the per-tick reset): it is admitted like any other
+    for present in (True, False):
+        for load, size, cap in ((1, 1, 3), (1, 2, 3), (2, 2, 3), (0, 2, 3), (0, 4, 3)):
+            if not present and load != 0:
+                continue
+            env = {load_t: load, size_t: size, cap_t: cap, f"{key_t} not in self.bandwidth_load": not present,
+                   f"{key_t} in self.bandwidth_load": present}
+            ev = Evaluator(env, LocalDefs(ca.node))
+            out, node, tr = walk(gca, ev)
+            if out != "return":
+                raise AnalysisError(f"R18.1: cannot evaluate AirSpace.can_transmit_frame ({out} at {unparse(node.ast)[:50] if node is not None and node.ast is not None else '?'})")
+            v = ev.ev(node.ast.value)
+            n_rows += 1
+            if v is UNKNOWN or bool(v) != (load + size <= cap):
+                bad.append(f"entry {'present' if present else 'absent'}, load {load} + size {size} vs capacity {cap}: answers {v}")
     ctx.record("R18.1", ctx.key(ca, "admit <=> load + size <= capacity"), ca.loc(), not bad,
-               "3-case order table holds" if not bad else "wireless admission test differs", bad)
+               f"{n_rows}-row table holds (with and without an entry for the frequency)" if not bad else "wireless admission test differs", bad)
     # same frequency key for load and capacity
     same = ("sender_network_interface.frequency" in load_t) and ("sender_network_interface.frequency" in cap_t)
     ctx.record("R18.1", ctx.key(ca, "load and capacity of the sender's frequency"), ca.loc(), same, f"load {load_t} ; capacity {cap_t}")
